@@ -82,7 +82,8 @@ func (g *zoneGen) service(owner, label string) {
 	t := g.t
 	n := rapid.IntRange(1, 4).Draw(t, label+"_n")
 	for i := 0; i < n; i++ {
-		h := dns.HTTPS{Priority: uint16(rapid.IntRange(1, 3).Draw(t, label+"_prio"))}
+		// SvcPriority is a 16-bit number: mostly small, sometimes from the far end of the range
+		h := dns.HTTPS{Priority: uint16(rapid.SampledFrom([]int{1, 1, 2, 2, 3, 3, 1, 2, 3, 32767, 32768, 40000, 65535}).Draw(t, label+"_prio"))}
 		tk := rapid.IntRange(0, 3).Draw(t, label+"_target")
 		if g.self != "" && rapid.IntRange(0, 5).Draw(t, label+"_target_self") == 0 {
 			tk = 4
